@@ -17,6 +17,7 @@ pub struct ItModel {
     pub hwm: usize,
     pub exhausted: bool,
     pub nexts: usize,
+    pub last_reset: Option<usize>,
 }
 
 pub struct GenModel<'w> {
@@ -82,6 +83,7 @@ impl<'w> GenModel<'w> {
                     hwm: 0,
                     exhausted: false,
                     nexts: 0,
+                    last_reset: None,
                 });
             }
             Op::DropIter { it } => self.iters[*it] = None,
@@ -133,6 +135,7 @@ impl<'w> GenModel<'w> {
                     (Op::SetOffset { offset, .. }, _) => {
                         m.cursor = (*offset).min(len);
                         m.exhausted = false;
+                        m.last_reset = Some(*offset);
                     }
                     _ => {}
                 }
@@ -163,6 +166,13 @@ impl<'w> GenModel<'w> {
                 // the current cursor
                 if b.contains(&m.cursor) { m.cursor } else { *rng.pick(&b) }
             }
+            4 => {
+                // the same offset as the previous reset (two resets to one place in a row)
+                match m.last_reset {
+                    Some(o) if b.contains(&o) => o,
+                    _ => *rng.pick(&b),
+                }
+            }
             _ => *rng.pick(&b),
         }
     }
@@ -181,5 +191,24 @@ pub fn gen_peek_n(rng: &mut Rng) -> usize {
         rng.range(6, 40)
     } else {
         rng.below(6)
+    }
+}
+
+/// History length: mostly `lo..=hi`, one run in twenty is long.
+pub fn gen_history_len(rng: &mut Rng, lo: usize, hi: usize) -> usize {
+    if rng.chance(1, 20) {
+        rng.range(100, 160)
+    } else {
+        rng.range(lo, hi)
+    }
+}
+
+/// Input length bounds: one world in fifteen has long inputs (several hundred bytes, long tokens,
+/// many line breaks, offsets beyond 255).
+pub fn gen_input_len(rng: &mut Rng, hi: usize) -> (usize, usize) {
+    if rng.chance(1, 15) {
+        (0, 300)
+    } else {
+        (0, hi)
     }
 }
